@@ -1716,7 +1716,7 @@ class AstEval:
         val = []
         for arg in elts:
             if isinstance(arg, ast.Starred):
-                val += await self.aeval(arg.value)
+                val.extend(await self.aeval(arg.value))
             else:
                 val.append(await self.aeval(arg))
         return val
